@@ -1,7 +1,7 @@
 """Driver for E1 checks: runs program specs in crash-contained workers (mirror installed there only), replays every
 finding through the public API in mirror-free workers, and feeds the Check object."""
 import json, hashlib, copy
-from .common import parmap
+from .common import parmap, sig_matches
 
 CALL_OPS = ("randomize", "randomize_with", "vsc_randomize", "vsc_randomize_with")
 
@@ -46,7 +46,7 @@ def _replay(job):
 
 
 NO_PUBLIC_REPLAY = ("trace_t1", "trace_t2", "read_model", "unmapped_var", "soft_guard", "soft_missing", "soft_not_maximal", "soft_priority",
-                    "soft_outcome", "bound_excludes", "order_violation", "swizzle_target", "not_idle", "hook_order", "hook_count")
+                    "soft_outcome", "bound_excludes", "order_violation", "swizzle_target", "not_idle", "hook_order", "hook_count", "list_facade")
 
 
 def run_specs(chk, specs, kinds, opts=None, sig_fn=None, nproc=None, chunk=None, extra_handler=None):
@@ -141,6 +141,9 @@ def run_specs(chk, specs, kinds, opts=None, sig_fn=None, nproc=None, chunk=None,
             chk.violation(sig, "%s [%s] %s :: %s :: observed on the real run (values returned by the real solver: %s); "
                           "not drawn again in 20 fresh draws" % (f["kind"], spec.get("tag"), spec.get("desc"), f["what"], f.get("returned")),
                           {"engine": "E1", "spec": spec, "finding": {k: v for k, v in f.items() if k != "tb"}})
+        elif status == "not_reproduced" and any(sig_matches(k.get("signature", {}), sig) for k in chk.known):
+            chk.note_inconclusive("finding of a known-finding family not reproduced this time: %s/%s %s -> %s" % (
+                spec.get("tag"), spec.get("desc"), f["kind"], info))
         elif status == "not_reproduced":
             chk.harness_error("finding did not reproduce through the public API: %s/%s %s (%s) -> %s" % (
                 spec.get("tag"), spec.get("desc"), f["kind"], f["what"][:200], info))
